@@ -481,7 +481,9 @@ impl World {
                     // popfq has no interrupt shadow
                     self.cpu.shadow_rip = None;
                 }
-                self.cpu.rflags_sys = v & !ARITH & !0x200 & !2;
+                // POPFQ (SDM vol. 2): VIP and VIF are unaffected, RF is cleared, VM unaffected (0)
+                const KEPT: u64 = 0x18_0000;
+                self.cpu.rflags_sys = (v & !ARITH & !0x200 & !2 & !KEPT & !0x3_0000) | (self.cpu.rflags_sys & KEPT);
                 let keep = ctx.eflags() & !ARITH;
                 ctx.set_eflags(keep | (v & ARITH));
             }
